@@ -76,6 +76,10 @@ def run(ctx):
     if doc_param is None or state_param is None:
         raise facts.AnchorMissing(INNER + " (&mut Automerge, &mut State) parameters")
     edges = rules.guard_edges(b, rules.place_pred(state_param, [".read_only"], False))
+    # the same test hoisted into a boolean (`let apply = !empty && !sync_state.read_only; if apply {..}`)
+    for e in cfg.cond_edges(b, atom_place=lambda o: o[0] == state_param and [x for x in o[1] if x.startswith(".")] == [".read_only"], want=False):
+        if e not in edges:
+            edges.append(e)
     muts = doc_mutations(b, doc_param)
     ctx.floor("document mutation points in receive_sync_message_inner", len(muts), 1)
     ctx.floor("switches on sync_state.read_only in receive_sync_message_inner", len(edges), 1)
